@@ -218,7 +218,9 @@ func generateKey(doc core.Doc, keyFields []mapper.Field) string {
 	keyBuilder := strings.Builder{}
 	for _, keyField := range keyFields {
 		keyBuilder.WriteString(fmt.Sprint(keyField.Index))
-		keyBuilder.WriteString(fmt.Sprintf("_%v_", doc.Fields[keyField.Index]))
+		// The Go-syntax form delimits strings (a value may itself contain the separator and an
+		// index) and tells a nil from the text that prints like one.
+		keyBuilder.WriteString(fmt.Sprintf("_%#v_", doc.Fields[keyField.Index]))
 	}
 	return keyBuilder.String()
 }
